@@ -55,5 +55,6 @@ package sql
 //@   modifies nothing
 //@ func NewCol
 //@   modifies nothing
-//@ func NewIn
+//@ func NewIn [C13]
 //@   modifies nothing
+//@   ensures fresh(result) && result.leftSide == left && len(result.rightSide) == len(right) && (forall i int :: 0 <= i && i < len(right) ==> result.rightSide[i] == right[i])
